@@ -22,7 +22,8 @@ import copy
 import math
 from fractions import Fraction
 
-ORDERABLE = ["ident", "bigint", "p31", "huge53", "huge60", "e18", "neg", "float", "tuple", "str"]
+ORDERABLE = ["ident", "bigint", "p31", "huge53", "huge60", "e18", "neg", "float", "tuple", "str", "intfloat", "floatx"]
+_FLOATX = [float("-inf"), -1e308, -2.0**60, -1e9, -1.0, -5e-324, 0.0, 5e-324, 1e-300, 1.0, 2.0**53, 2.0**60, 1e300, 1e308, float("inf")]
 UNORDERABLE = ["mixed", "none"]
 NODE_MODES = ["list", "tuple", "gen", "iter", "keys", "map"]
 NB_MODES = ["list", "tuple", "gen", "iter", "shared"]
@@ -49,6 +50,10 @@ def label_of(mode, i, none_id=None):
         return () if i == 0 else (i // 3, i % 3)
     if mode == "str":
         return "" if i == 0 else f"n{i:04d}"
+    if mode == "intfloat":
+        return i - 2  # node list holds ints; the neighbour callback answers with the equal floats (33 vs 33.0, 0 vs -0.0)
+    if mode == "floatx":
+        return _FLOATX[i]
     if mode == "mixed":
         return _MIXED[i] if i < len(_MIXED) else (i, "z")
     if mode == "none":
@@ -82,12 +87,17 @@ class Bound:
 
     def __init__(self, nodes, nb, pres):
         self.labmode, self.nmode, self.bmode = pres
+        if self.labmode == "floatx" and any(i >= len(_FLOATX) for i in set(nodes) | {w for v in nodes for w in nb[v]}):
+            self.labmode = "float"
         none_id = min(nodes) if nodes else None
         self.lab = {i: label_of(self.labmode, i, none_id) for i in set(nodes) | {w for v in nodes for w in nb[v]}}
         self.back = {l: i for i, l in self.lab.items()}
         assert len(self.back) == len(self.lab)
         self.node_list = [self.lab[v] for v in nodes]
-        self.owned = {self.lab[v]: [fresh(self.lab[w]) for w in nb[v]] for v in nodes}
+        if self.labmode == "intfloat":
+            self.owned = {self.lab[v]: [-0.0 if self.lab[w] == 0 else float(self.lab[w]) for w in nb[v]] for v in nodes}
+        else:
+            self.owned = {self.lab[v]: [fresh(self.lab[w]) for w in nb[v]] for v in nodes}
         self._nodes0 = copy.deepcopy(self.node_list)
         self._owned0 = copy.deepcopy(self.owned)
         self.orderable = self.labmode in ORDERABLE
